@@ -136,7 +136,7 @@ fn client_fields(out: &mut Vec<u8>, c: &MClient, ex: bool) {
 /// (received mask as the library computes it, client index range) of every part `build_parts` emits
 fn part_layout(cfg: &SbCfg, m: &Model) -> Vec<(u64, usize, usize)> {
     let mut out = Vec::new();
-    let chunk = cfg.chunk.clamp(1, 24) as usize;
+    let chunk = cfg.chunk.clamp(1, 80) as usize;
     let n = m.clients.len();
     if cfg.format == 0 {
         let mut off = 0usize;
@@ -197,7 +197,7 @@ impl DefectModel {
 
 fn build_parts(cfg: &SbCfg, m: &Model) -> Vec<Vec<u8>> {
     let mut parts = Vec::new();
-    let chunk = cfg.chunk.clamp(1, 24) as usize;
+    let chunk = cfg.chunk.clamp(1, 80) as usize;
     if cfg.format == 0 {
         let mut off = 0usize;
         loop {
@@ -429,8 +429,8 @@ impl Engine for SbEngine {
             seed: c.next_u64(),
             format,
             n_clients,
-            chunk: if format == 0 { *c.pick(&[24u8, 24, 24, 24, 16, 20, 1, 7]) } else { *c.pick(&[1u8, 2, 5, 16, 24]) },
-            main_clients: c.range(0, 24) as u8,
+            chunk: if format == 0 { *c.pick(&[24u8, 24, 24, 24, 16, 20, 1, 7, 32, 63, 64, 65]) } else { *c.pick(&[1u8, 2, 5, 16, 24, 40, 64]) },
+            main_clients: if c.chance(1, 6) { c.range(0, 64) as u8 } else { c.range(0, 24) as u8 },
         };
         let mode = c.below(8); // 0-2: permutation only; 3-4: + loss; 5-6: + duplicates; 7: corruption
         let n_parts_guess = 70;
